@@ -340,7 +340,8 @@ func runC17(c c17Case) (out c17Outcome, f *ev.Failure) {
 	return
 }
 
-func checkC17(c c17Case) *ev.Failure {
+// judgeC17 runs the request once under a watchdog and returns the failure (if any) and the outcome.
+func judgeC17(c c17Case) (*ev.Failure, c17Outcome) {
 	var before, after runtime.MemStats
 	runtime.ReadMemStats(&before)
 	type res struct {
@@ -356,36 +357,39 @@ func checkC17(c c17Case) *ev.Failure {
 	select {
 	case r = <-ch:
 	case <-time.After(10 * time.Second):
-		return ev.Failf("hang", "request handling did not return within 10s")
+		return ev.Failf("hang", "request handling did not return within 10s"), c17Outcome{step: "hang"}
 	}
 	if r.f != nil {
-		return r.f
+		return r.f, r.o
 	}
 	runtime.ReadMemStats(&after)
 	if grown := after.TotalAlloc - before.TotalAlloc; grown > 256<<20 {
-		return ev.Failf("alloc/"+r.o.step, "handling the request allocated %d MiB (outcome %s)", grown>>20, r.o.step)
+		return ev.Failf("alloc/"+r.o.step, "handling the request allocated %d MiB (outcome %s)", grown>>20, r.o.step), r.o
 	}
-	ev.Get("C17", "Requests").Count("outcome:"+r.o.step, 1)
-	return nil
+	return nil, r.o
 }
 
-func classifyC17(c c17Case) (bool, []string) {
-	o, _ := func() (o c17Outcome, f *ev.Failure) {
-		defer func() { recover() }()
-		return runC17(c)
-	}()
-	first := o.step == "ValidateTier1Request" || o.step == "ValidateTier2Request" || o.step == "decode" || o.step == "nil-modules" || o.step == ""
-	nt := (!first && o.step != "accepted") || (o.step == "accepted" && o.modules >= 3)
-	tier := "tier1"
-	if c.Tier2 {
-		tier = "tier2"
-	}
-	return nt, []string{tier}
+func checkC17(c c17Case) *ev.Failure {
+	f, _ := judgeC17(c)
+	return f
 }
 
 func TestC17(t *testing.T) {
 	ev.Get("C17", "Requests").Rule = "rapid, structure-aware: tier1 Request / tier2 ProcessRangeRequest with every field of every module free (absent kinds and oneofs, dangling/self/cyclic references, duplicate and empty names, out-of-range and huge binary indexes, filters on non-index modules, huge initial blocks, arbitrary start/stop/cursor) or a valid generated graph with one field broken; the server's sequence ValidateTier{1,2}Request -> exec.NewOutputModuleGraph -> BuildRequestDetails -> BuildTier1RequestPlan, each only if the previous accepted, must return without panic within 10 s and < 256 MiB allocated; non-trivial = rejected by a step after the first, or accepted with >= 3 modules; outcome histogram under counters"
-	ev.Prop(t, "C17", "Requests", genC17, checkC17, classifyC17)
+	r := ev.Get("C17", "Requests")
+	rapid.Check(t, func(rt *rapid.T) {
+		c := genC17(rt)
+		f, o := judgeC17(c) // the request is handled exactly once (a hanging request must not be run again to classify it)
+		r.Count("outcome:"+o.step, 1)
+		first := o.step == "ValidateTier1Request" || o.step == "ValidateTier2Request" || o.step == "decode" || o.step == "nil-modules" || o.step == ""
+		nt := (!first && o.step != "accepted") || (o.step == "accepted" && o.modules >= 3)
+		tier := "tier1"
+		if c.Tier2 {
+			tier = "tier2"
+		}
+		r.Case(c, nt, tier)
+		r.Report(rt, c, f)
+	})
 }
 
 func TestC17Replay(t *testing.T) { ev.Replay(t, "C17", "Requests", checkC17) }
